@@ -82,6 +82,11 @@ REGISTRY = {
     "c01": "dst.monitors.c01:C01Monitor",
     "c02": "dst.monitors.c02:C02Monitor",
     "c18": "dst.monitors.c18:C18Monitor",
+    "c11": "dst.monitors.c11:C11Monitor",
+    "c09": "dst.monitors.c09:C09Monitor",
+    "c10": "dst.monitors.c10:C10Monitor",
+    "c19": "dst.monitors.c19:C19Monitor",
+    "c07": "dst.monitors.c07:C07Monitor",
 }
 
 
